@@ -151,6 +151,44 @@ def run(P, chk, tier, client=False):
     chk.extra["reachable_functions"] = sorted(f.name for f in A.reach)
 
 
+SCANNERS = {"strspn", "strcspn", "strlen", "strchr", "strpbrk", "memchr", "strnlen"}
+
+
+def _string_scan_loop(f, head, body):
+    """`while (*w != 0) { n = strcspn(w, ..); ...; w += n; w += strspn(w, ..); }`: the tested pointer is moved only by
+    amounts that come out of libc's string scanners."""
+    hb = f.blocks[head]
+    conds = [sk(f.blocks[b_].term["cond"]) for b_ in body if f.blocks[b_].term and f.blocks[b_].term.get("cond") is not None]
+    ptrs = set()
+    for c in conds:
+        for y in ir.walk(c):
+            if y.get("k") == "Un" and y["op"] == "*" and sk(y["a"][0]).get("k") == "Ref" and \
+                    (sk(y["a"][0]).get("t") or {}).get("k") == "ptr":
+                ptrs.add(pp(sk(y["a"][0])))
+    if not ptrs:
+        return False
+    scanned = set()         # locals that hold a scanner's result
+    for b_ in body:
+        for e in f.blocks[b_].elems:
+            x = sk(e)
+            if x.get("k") == "Bin" and x["op"] == "=" and sk(x["a"][1]).get("k") == "Call" and sk(x["a"][1]).get("fn") in SCANNERS:
+                scanned.add(pp(sk(x["a"][0])))
+    for v in ptrs:
+        steps = []
+        for b_ in body:
+            for e in f.blocks[b_].elems:
+                x = sk(e)
+                if x.get("k") == "Bin" and x["op"] in ("+=", "=") and pp(sk(x["a"][0])) == v:
+                    steps.append(x)
+                elif x.get("k") == "Un" and x["op"] in ("post++", "pre++") and pp(sk(x["a"][0])) == v:
+                    steps.append(None)
+        if steps and all(st_ is not None and st_["op"] == "+=" and (
+                (sk(st_["a"][1]).get("k") == "Call" and sk(st_["a"][1]).get("fn") in SCANNERS) or pp(sk(st_["a"][1])) in scanned)
+                for st_ in steps):
+            return True
+    return False
+
+
 def termination(P, E, chk, prop, reach, client):
     """M8: every loop and every recursion of the packet-reachable functions has a termination argument."""
     from iosa import termin
@@ -171,6 +209,12 @@ def termination(P, E, chk, prop, reach, client):
             except AnalysisBroken as ex:
                 kind, detail = None, "shape not analysable: %s" % ex
             kinds[kind] = kinds.get(kind, 0) + 1
+            if kind is None and _string_scan_loop(f, h, body):
+                chk.undecided(r8, f, line, "%s: loop at line %s" % (f.name, line),
+                              "the loop walks a string until its terminator and advances by what strspn/strcspn/strlen/strchr "
+                              "return: that it makes progress is a property of those library functions on the string's "
+                              "contents, which no rule here decides (%s)" % detail)
+                continue
             chk.site(r8, f, line, "%s: loop at line %s" % (f.name, line), kind is not None,
                      "%s: %s" % (kind, detail) if kind else "no termination argument found: %s" % detail)
     # recursion: strongly connected components of the call graph restricted to the reachable set
